@@ -94,19 +94,23 @@ Definition chk_call (bf mk : nat) (st : ustate) (called : list mid) (o : op) (ob
     if model_ok then (0, st') else (2, st')
   end.
 
-Fixpoint chk_calls (bf mk : nat) (st : ustate) (called : list mid) (l : list (op * iobs)) (i : Z) : Z :=
+(* a code-1 verdict (the property is violated) anywhere in the history wins over an earlier code-2 verdict (model and
+   implementation differ), which is kept in `pend` and reported when no later call violates the property *)
+Fixpoint chk_calls (bf mk : nat) (st : ustate) (called : list mid) (l : list (op * iobs)) (i : Z) (pend : Z) : Z :=
   match l with
-  | [] => 0%Z
+  | [] => pend
   | (o, ob) :: l' =>
       let '(c, st') := chk_call bf mk st called o ob in
-      if c =? 0 then chk_calls bf mk st' (tops_of o ++ called) l' (i + 1)%Z
+      if c =? 0 then chk_calls bf mk st' (tops_of o ++ called) l' (i + 1)%Z pend
+      else if c =? 2 then chk_calls bf mk st' (tops_of o ++ called) l' (i + 1)%Z
+                            (if (pend =? 0)%Z then (2 + 10 * (i + 1))%Z else pend)
       else (Z.of_nat c + 10 * (i + 1))%Z
   end.
 
 Definition chk_c07 (c : c07case) : Z :=
   let '(d, inits, l) := c in
   match default_bf, default_mk with
-  | Some bf, Some mk => if wf_design d then chk_calls bf mk (uinit inits d) [] l 0%Z else 3%Z
+  | Some bf, Some mk => if wf_design d then chk_calls bf mk (uinit inits d) [] l 0%Z 0%Z else 3%Z
   | _, _ => 3%Z
   end.
 
